@@ -252,3 +252,13 @@ def c02(run):
 @prop("C01")
 def c01(run):
     return L.check_c01(run)
+
+
+@prop("C20")
+def c20(run):
+    return L.check_c20(run)
+
+
+@prop("C03")
+def c03(run):
+    return L.check_c03(run)
